@@ -269,7 +269,7 @@ def run_job(job):
         _verif.add_sink(rec2)
         try:
             twin = build_solver(job)
-            for k in job["calls"]:
+            for k in job.get("twin_calls") or job["calls"]:
                 twin.solve(max_iterations=k)
         except Exception:
             pass
@@ -444,10 +444,53 @@ def project(job, raw):
     return trace
 
 
+def soft_pvi(job):
+    """PVI with a non-dyadic discount factor: classify each logged measure against the two documented
+    formulas (float arithmetic, relative 1e-9); legality is decided by BranchTrace.tla."""
+    gamma = job["gamma_float"]
+    mdp = job["mdp"]
+    problem = T.make_problem(mdp)
+    from mdpax import solvers as S
+    rec = Recorder()
+    _verif.clear_sinks()
+    _verif.add_sink(rec)
+    solver = S.PeriodicValueIteration(problem, gamma=gamma, epsilon=job["eps_float"], period=job["period"],
+                                      max_batch_size=job.get("mbs", 1024), verbose=0,
+                                      clear_value_history_on_convergence=False)
+    iterates = [np.array(solver.values, dtype=np.float64)]
+    solver.solve(max_iterations=job["calls"][0])
+    _verif.clear_sinks()
+    p = job["period"]
+    sweeps = []
+    for ev in rec.events:
+        if ev["e"] != "sweep":
+            continue
+        iterates.append(np.array(ev["values"], dtype=np.float64))
+        n = ev["it"]
+        conv = ev["conv"]
+        entry = {"it": n, "inf": conv == float("inf"), "undisc": False, "disc": False, "differ": False}
+        if n >= p and conv != float("inf"):
+            d1 = iterates[n] - iterates[n - p]
+            und = float(d1.max() - d1.min())
+            acc = np.zeros_like(iterates[0])
+            for j in range(n - p + 1, n + 1):
+                acc += (iterates[j] - iterates[j - 1]) / gamma ** (j - 1)
+            dis = float(acc.max() - acc.min())
+            tol = 1e-9 * max(abs(und), abs(dis), 1e-300)
+            entry["undisc"] = abs(conv - und) <= tol
+            entry["disc"] = abs(conv - dis) <= tol
+            entry["differ"] = abs(und - dis) > 100 * tol
+        sweeps.append(entry)
+    return {"soft": True, "gammaisone": gamma == 1.0, "period": p, "sweeps": sweeps, "gamma": gamma, "tag": job.get("tag")}
+
+
 def main():
     req = json.load(sys.stdin)
     out = []
     for job in req["jobs"]:
+        if job.get("soft"):
+            out.append([soft_pvi(job)])
+            continue
         try:
             trs = [project(job, raw) for raw in run_job(job)]
         except Exception:
